@@ -18,7 +18,7 @@ ID = "C09"
 LEVEL = "model_checking"
 RULE = (
     "per shape (P: sqA, triA, L, U cw; PC: hollow, two, xtwo, xhollow; each int / Fraction / float; curved: c8, lens, "
-    "cubic blob, curved ring) breadth-first search over all sequences of length <= 2 (thorough 3) of 12 transformations "
+    "cubic blob, curved ring, cubics with a doubled and with a zero-length handle) breadth-first search over all sequences of length <= 2 (thorough 3) of 12 transformations "
     "(move by (3,-2), (1/3,2/7), (0.5,-1.25), (1e6,0), tuple form; scale by (2,3), (1/2,1/3), (0.5,2.0); rotate by pi/2, "
     "0.3, 90 deg, -37.5 deg), states de-duplicated on the full representation; invariant in every state: every control "
     "point equals the exact affine image of the original (exactly, with Fraction type, for rational data under "
@@ -158,7 +158,7 @@ def shapes(tier):
     for v in ("int", "frac", "float"):
         out += [["L", "P.sqA#" + v], ["L", "P.triA#" + v], ["L", "P.L#" + v], ["L", "P.U#%s@cw" % v]]
         out += [["PC", n, v] for n in ("hollow", "two", "xtwo", "xhollow")]
-    out += [["L", "Q.c8"], ["L", "Q.lens@cw"], ["L", "Q.blob"], ["CQ", "ringc"]]
+    out += [["L", "Q.c8"], ["L", "Q.lens@cw"], ["L", "Q.blob"], ["CQ", "ringc"], ["L", "Q.dblh"], ["L", "Q.zeroh@cw"]]
     return out
 
 
